@@ -19,7 +19,7 @@ pub fn gen_data(t: &mut Tape, wbits: u32, max_len: usize) -> Vec<u8> {
         if out.len() >= max_len {
             break;
         }
-        let kind = t.below(8);
+        let kind = t.below(10);
         let lens: [usize; 24] = [1, 2, 3, 8, 15, 16, 17, 64, 258, 259, 262, 300, 1000, w - 262, w - 261, w - 1, w, w + 1, 2 * w - 262, 2 * w, 2 * w + 263, 3 * w, 20000, 70000];
         let mut len = if t.chance(64) { t.below(5000) } else { t.pick(&lens) };
         if len > max_len - out.len() {
@@ -89,10 +89,18 @@ pub fn gen_data(t: &mut Tape, wbits: u32, max_len: usize) -> Vec<u8> {
                 }
                 out.truncate(start + len);
             }
-            _ => {
+            7 => {
                 let n = len.min(64);
                 let b = t.bytes(n);
                 out.extend_from_slice(&b);
+            }
+            _ => {
+                // very low entropy: random letters from an alphabet of 2..4 symbols (long hash chains,
+                // many equally good match candidates)
+                let a = 2 + x.below(3);
+                for _ in 0..len {
+                    out.push(b'a' + x.below(a) as u8);
+                }
             }
         }
     }
